@@ -143,5 +143,14 @@ PROPS["C11"] = dict(
          "distinct = distinct input tuple",
 )
 
+PROPS["C01"] = dict(
+    title="Publish reaches exactly the subscribed handlers, once each, in order",
+    theorems="Properties/C01.v",
+    proof_files=["Bus/BusModel.v", "Properties/C01.v"],
+    suites=[dict(name="busseq", mod="core", family="busseq", corr="Corr.CorrBus", check="check_bus_agree", shard=25),
+            dict(name="buscon", mod="core", family="buscon", corr="Corr.CorrBus", check="check_bus_agree", shard=25)],
+    level_text="TODO", level_note="TODO", rule="TODO",
+)
+
 NOT_CLAIMED = {p: "check not built yet in this session (work in progress; planned per DESIGN.md section 6)" for p in
                ["C%02d" % i for i in range(1, 21)]}
